@@ -217,6 +217,9 @@ func FillOperands(t *rapid.T, c *Case) {
 			if hi > 40 {
 				hi = 40
 			}
+			if hi < 1 {
+				hi = 1
+			}
 			c.QExp = int32(rapid.IntRange(1, hi).Draw(t, "qft"))
 		}
 		if ctx.Emin <= -90000 && gen.Pick(t, 40, "qgaplimit") == 1 {
@@ -544,6 +547,13 @@ func Reference(c Case) Expect {
 			setExact(ex)
 			e.R = ref.Result{Form: apd.Finite, Neg: ex.Neg, Coeff: q, Exp: 0}
 			e.ExpSet, e.ExpWant = true, 0
+			if q.Sign() != 0 && ref.NDigits(q)-1 > int64(ctx.Emax) {
+				// an integer of at most Precision digits can still lie above the context's
+				// range (MaxExponent < Precision-1): it overflows like any other result
+				e.R = ref.Round(ex, ctx)
+				e.Cond = e.R.Flags() & (apd.Overflow | apd.Inexact)
+				e.ExpSet = false
+			}
 			return e
 		}
 		ex := ref.Exact{Neg: c.X.Neg, Num: r, Den: big.NewInt(1), Exp: ee}
